@@ -4,6 +4,7 @@ import PfModel.Model.MapPiecesSub
 import PfModel.Model.MapPiecesFlow
 import PfModel.Model.MapPiecesReduced
 import PfModel.Model.MapPiecesWhole
+import PfModel.Model.MapPiecesScope
 import PfModel.Lemmas.MapTotal
 /-! Driver for C06: `pieces.run` (a sequence of `map(fixed_indices=…, cleanup=False)` on one folder), `learners.make`
     (`create_learners`), `learners.exec` (a sequence of `learner.function(x)` calls on the shared store), `sel.indices`
@@ -83,7 +84,9 @@ def handle (m : String) (a : Json) : R Json := do
     let internal := (← optF (asList (asPair asStr (asList asNat))) a "internal").getD []
     let fixed ← getFixed ((fld? a "fixed").getD Json.null)
     let split ← boolF a "split"
-    match createLearners fs inputs internal fixed split with
+    -- round 10: `element` = the functions declared with `resources_scope="element"` (their learners are split per element)
+    let elem := (← optF (asList asStr) a "element").getD []
+    match createLearnersScoped fs inputs internal fixed split elem with
     | .error e => return putMErr e
     | .ok ls => return jObj [("learners", jList (jPair putFixed (jList (jList putLearner))) ls)]
   | "learners.exec" =>
